@@ -295,8 +295,22 @@ func checkCase(c *Case) (err error) {
 	}()
 	// routes: /r<i> (plain), plus one redirecting route
 	for i, rc := range c.Routes {
-		if _, err := f.Handle("GET", routePattern(i), endpoint(fmt.Sprintf("r%d", i), 200), routeOpts("m", i, rc.N)...); err != nil {
+		ro := routeOpts("m", i, rc.N)
+		if len(ro) >= 2 {
+			// one option list used for two registrations: a sibling route takes its first option only, then the route itself
+			// takes the whole list (the shorter slice shares the longer one's backing array)
+			if _, err := f.Handle("GET", fmt.Sprintf("/so/%d", i), endpoint(fmt.Sprintf("so%d", i), 200), ro[:1]...); err != nil {
+				return fmt.Errorf("%sregistering the sibling of route %d: %v", desc, i, err)
+			}
+		}
+		if _, err := f.Handle("GET", routePattern(i), endpoint(fmt.Sprintf("r%d", i), 200), ro...); err != nil {
 			return fmt.Errorf("%sregistering route %d: %v", desc, i, err)
+		}
+		if len(ro) >= 2 {
+			want := append(append(c.globalsFor(fox.RouteHandler), ids("m", i, rc.N)[0]), fmt.Sprintf("H:so%d", i))
+			if err := expectTrace(serve(f, "GET", fmt.Sprintf("/so/%d", i)), want); err != nil {
+				return fmt.Errorf("%ssibling of route %d, registered with the first of the route's %d options: %w", desc, i, len(ro), err)
+			}
 		}
 	}
 	if _, err := f.Handle("GET", "/redir/", endpoint("redir", 200), fox.WithRedirectTrailingSlash(true)); err != nil {
